@@ -1507,6 +1507,7 @@ func (p *partition) sendTooLargeNack(msg *commitlog.Message) {
 func (p *partition) replicationRequestLoop(leader string, epoch uint64, stop <-chan struct{}) {
 	leaderLastSeen := time.Now()
 	for {
+		verifGateStop("follower.before_request", p.srv.config.Clustering.ServerID, stop)
 		select {
 		case <-stop:
 			return
